@@ -1021,7 +1021,7 @@ def main():
                    "differential check only (no translator)",
                    "Python spec function reach() tied to the Coq spec function reach_le (C03_spec_function_sound) "
                    "on all digraphs on 3 names x bounds 0..3"]
-    chk.build(translators=["haslink"])
+    chk.build(translators=["haslink", "condhaslink"])
     if chk.replay_file:
         return replay(chk)
     run(chk, chk.tier)
